@@ -3,6 +3,7 @@
  * Constants of the output relay in src/pdsh/dsh.c that are literals inside functions (not
  * macros) and therefore have to be read off the running code:
  *   RELAY_CBUF_MIN/MAX   the arguments of cbuf_create() in _thd_init()
+ *   RELAY_SIZE_META_ASSERT  alloc - size of a cbuf in the build flavour with assertions
  *   RELAY_TAILBUF        sizeof(buf) in _flush_output() (a tail is cut every RELAY_TAILBUF-1 bytes)
  *   RELAY_TAIL_CALLS     number of out() calls _flush_output() spends on a short labelled tail:
  *                        2 = label and data separately (defect D6), 1 = one call (repaired form)
@@ -64,6 +65,11 @@ int main(void)
     _thd_init(&th[0], &opt, NULL, 0);
     LEAN_NAT("RELAY_CBUF_MIN", th[0].outbuf->minsize);
     LEAN_NAT("RELAY_CBUF_MAX", th[0].outbuf->maxsize);
+    /* bookkeeping cells (alloc - size) of the OTHER build flavour of cbuf.c, the one with assertions
+     * (cbuf_create: `alloc = minsize + 1; #ifndef NDEBUG alloc += 2 * CBUF_MAGIC_LEN`); this probe is
+     * compiled like the shipped build (NDEBUG).  The checks compare it with what the assertion-enabled
+     * harness reports (`--meta`). */
+    LEAN_NAT("RELAY_SIZE_META_ASSERT", (th[0].outbuf->alloc - th[0].outbuf->size) + 2 * CBUF_MAGIC_LEN);
     LEAN_NAT("RELAY_ERRBUF_SAME", th[0].errbuf->minsize == th[0].outbuf->minsize &&
                                   th[0].errbuf->maxsize == th[0].outbuf->maxsize);
 
